@@ -86,7 +86,7 @@ def runCase (j : Json) : Except String Json := do
   let wf ← parseFile (← j.getObjVal? "file")
   let opsJ ← (← j.getObjVal? "ops").getArr?
   match link wf with
-  | none => return Json.mkObj [("link", "error")]
+  | none => return Json.mkObj [("link", "error"), ("wellFormed", toJson wf.wellFormedB)]
   | some p0 =>
     let ops ← opsJ.toList.mapM (fun x => do
       let a ← x.getArr?
@@ -106,7 +106,7 @@ def runCase (j : Json) : Except String Json := do
       (r.1, outName r.2 :: acc.2)) (p0, [])
     let nums (k : Kind) : Json := toJson ((p.coll k).objs.map (p.coll k).num)
     return Json.mkObj [
-      ("link", "ok"), ("outs", toJson outs.reverse),
+      ("link", "ok"), ("wellFormed", toJson wf.wellFormedB), ("outs", toJson outs.reverse),
       ("numbers", Json.mkObj [("cell", nums .cell), ("surf", nums .surf), ("mat", nums .mat), ("tr", nums .tr),
         ("univ", Json.arr (p0.univs.objs.map (fun u => Json.arr #[toJson (p0.univs.num u), toJson (p.univs.num u)])).toArray)]),
       ("file", fileJ (write p))]
